@@ -29,6 +29,17 @@ func init() {
 		Control{"response queued on a sender not fixed by the session", "gossip/basestream/basestreamseeder/seeder.go", `s\.senders\[session\.senderI\]\.Enqueue`, "s.senders[int(i)%len(s.senders)].Enqueue", "session's own sender"})
 	Controls["C24"] = append(Controls["C24"],
 		Control{"prefix increment loses the overflow exit", "kvdb/table/table.go", `\tif len\(endBn\.Bytes\(\)\) > len\(prefix\) \{\n\t\t// overflow\n\t\treturn nil\n\t\}\n`, "", "C24.inc"})
+	// round 4
+	Controls["C05"] = append(Controls["C05"],
+		Control{"fork check looks up the observer's branch", "vecfc/forkless_cause.go", `vi\.Engine\.GetEventBranchID\(bID\)`, "vi.Engine.GetEventBranchID(aID)", "C05.bfork"})
+	Controls["C15"] = append(Controls["C15"],
+		Control{"far-future test through a signed 32-bit difference", "gossip/dagprocessor/processor.go", `event\.Lamport\(\) > highestLamport\+maxLamportDiff`, "int32(event.Lamport()-highestLamport) > int32(maxLamportDiff)", "C15.future"})
+	Controls["C16"] = append(Controls["C16"],
+		Control{"re-fetch requester taken from another announcement", "gossip/itemsfetcher/fetcher.go", `requestFns\[announce\.peer\] = announce\.fetchItems`, "requestFns[announce.peer] = oldest.fetchItems", "C16.peer"})
+	Controls["C18"] = append(Controls["C18"],
+		Control{"sweep result discarded", "gossip/basestream/basestreamleecher/basepeerleecher/session.go", `d\.processingChunks = d\.sweepProcessedChunks\(\)`, "d.sweepProcessedChunks()", "leave the processing list"})
+	Controls["C23"] = append(Controls["C23"],
+		Control{"snapshot shares the live overlay tree", "kvdb/flushable/flushable.go", `modifiedCopy := rbt\.NewWithStringComparator\(\)`, "modifiedCopy := w.modified", "C23.flushable.snapshot.own"})
 	Controls["C33"] = append(Controls["C33"],
 		Control{"over-weight Add keeps the stale entry", "utils/simplewlru/simplewlru.go", `(func \(c \*Cache\) Add\(key, value interface\{\}, weight uint\) \(evicted int\) \{\n)`, "${1}\tif weight > c.maxWeight {\n\t\treturn 0\n\t}\n", "C33.cache"})
 }
